@@ -63,9 +63,9 @@ CLAIMED["C09"] = ("ownership rule (clone before in-place mutation) from type-res
  "Sound static decision of necessary conditions of language preservation: no shared mutable structure between inlined copies, class merging only for non-inverted classes with equal flags, all kinds traversed, entrypoints protected (findings F1, F3, F4 repaired).",
  "Not decided: semantic equivalence of each rewrite beyond its side conditions; label/scope effects of inlining.",
  "DESIGN.md §3 C09")
-CLAIMED["C13"] = ("enumeration of crash constructs discharged by reasons with machine-checked side conditions; exit-code discipline on main's syntax tree",
+CLAIMED["C13"] = ("enumeration of crash constructs discharged by reasons with machine-checked side conditions; exit-code discipline on main's syntax tree; string-shape abstract interpretation of delimiter-stripping slices against the texts the front-end grammar literal can hand over; re-evaluation pattern on the grammar literal",
  "Sound static decision of panic-freedom of the generator for the enumerated construct classes and of the exit-code contract (findings F1, F2 repaired).",
- "Not decided: termination (exponential analyses), out-of-range slicing. nilaway/staticcheck are cross-reference only (thorough).",
+ "Not decided: termination beyond the structural causes C13-d/k/l/m/r, subscripts outside the decided forms (constants, counters, subtracted positions, delimiter-stripping slices C13-q); the bootstrap binaries. nilaway/staticcheck are cross-reference only (thorough).",
  "DESIGN.md §3 C13")
 CLAIMED["C19"] = ("iteration-order insensitivity: effect classification of every map range, tabled instances with checked effect signatures, absence of other nondeterminism sources",
  "Complete (modulo the reasoned table) static decision that map iteration order cannot reach the output of the generator or of the runtime (finding F6 repaired).",
